@@ -460,7 +460,10 @@ Definition next_silent (s : state) (t : nat) : bool :=
       match a with
       | AInc _ _ | ADec _ | ADecKeep _ | APoolObt _ | ADrain => false
       | ATake _ | AUntag _ | AStore _ _ | ASlabDel _ => true
-      | ARel o n => let ob := get_obj (s_heap s) o in negb ((length (o_mem ob) <=? n) && o_pooled ob)
+      | ARel o n =>
+          (* pooled objects: the reset-to-default (operator=) at the start of the release is an observation point of
+             the controlled scheduler, the pool's critical section at its end is a lock *)
+          let ob := get_obj (s_heap s) o in negb (o_pooled ob && ((length (o_mem ob) <=? n) || (n =? 0)))
       end
   end.
 
